@@ -83,3 +83,21 @@ PROPS["C11"] = {
     "trusted_base": ["verus 0.2026.09.13 + z3", "vstd specs of Vec index/truncate and range iteration"],
     "explanation": "recovery = { t | net(log,t) > 0 }",
 }
+
+PROPS["C31"] = {
+    "verus": ["order_lemmas"],
+    "kani": ["value"],
+    "level": "proof",
+    "level_text": "Kani/CBMC harnesses over the real Eq/Ord/Hash impls of Value and Tuple: per value kind (concrete discriminant, fully symbolic payload) the binary laws cmp==Equal<=>==, antisymmetry, ==⇒equal hash feed, and transitivity over symbolic triples; cross-kind order shown payload-independent and the 9x9 kind table a strict total order; a Verus meta-lemma lifts these to 'total order on all values' and lexicographically to tuples. Complete (full bit-vector domain) for Null/Bool/Int32/Int64/Float64/Timestamp; strings, vectors and tuples are BOUNDED (payload length <= 1, thorough <= 2) and not counted as proved.",
+    "level_note": "trusted: Kani 0.68 + CBMC 6.11; std's str/slice Ord, Eq, Hash and Arc deref; Hash observed as the byte sequence fed to the Hasher (SipHash itself not executed); heap kinds bounded",
+    "technique": "Kani proof harnesses injected as a child module of src/value/mod.rs in a scratch copy (insert-only), full-domain symbolic scalars with concrete enum kinds; Verus meta-lemma for the ordinal-sum / lexicographic lifting",
+    "aux_failure": "violation",
+    "functions_under_contract": ["src/value/mod.rs: <Value as PartialEq>::eq, <Value as Ord>::cmp, <Value as PartialOrd>::partial_cmp, <Value as Hash>::hash, <Tuple as Ord>::cmp, Tuple's derived PartialEq"],
+    "assumptions": [
+        "strings/vectors: payload length <= 1 (quick) / <= 2 (thorough); std's str and slice comparison/equality/hash are trusted beyond that",
+        "Hash consistency is checked on the byte sequence written to the Hasher, for any deterministic Hasher",
+        "the lifting from per-kind laws + kind table to all values, and to tuples of any length, is the Verus meta-lemma in verus/order_lemmas.spec (abstract, over any carrier)",
+    ],
+    "trusted_base": ["kani 0.68.0 + cbmc 6.11", "verus 0.2026.09.13 + z3 (meta-lemma)"],
+    "explanation": "Eq/Ord/Hash laws of Value and Tuple",
+}
